@@ -74,11 +74,13 @@ type nilReq struct {
 
 // lastStep describes how the dereferenced pointer was produced.
 type lastStep struct {
-	kind  string // "param", "field", "lookup", "call", "assert", "phi", "range", "alloc", "const-nil", "other"
-	owner string // for field: struct name
-	field string
-	model bool // field of a document-model struct
-	desc  string
+	kind    string // "param", "field", "lookup", "call", "assert", "phi", "range", "alloc", "const-nil", "other"
+	owner   string // for field: struct name
+	field   string
+	model   bool       // field of a document-model struct
+	wrapper bool       // the value is a pointer to a reference wrapper (or path item)
+	coll    types.Type // for range: the collection the element comes from
+	desc    string
 }
 
 type nilAnalyzer struct {
@@ -91,7 +93,13 @@ type nilAnalyzer struct {
 	nilImpl    map[*ssa.Function]int // +1: true result implies receiver non-nil; -1: false result implies; 0: none
 	niDone     map[*ssa.Function]bool
 	viol       map[string]nilViolation
-	raw        bool // C20: nothing has been validated – wrappers may be unresolved, entries may be nil
+	raw        bool // C20 load phase: nothing is known – wrappers may be unresolved, entries may be nil
+	loaded     bool // C20 post-load phase: wrappers are present and resolved, other entries may be nil
+	nowe       map[string]bool
+	nnMap      map[*ssa.Function]bool
+	nnType     map[*types.Named]bool
+	rejEmpty   map[string]bool
+	okImpl     map[*ssa.Function][]string // callee -> paths below its receiver/first parameter that are non-nil when it returns a nil error
 	provedKeys map[string]string
 	keyCache   map[ssa.Value]keyInfo
 	edgeCache  map[*ssa.Function]map[ssa.CallInstruction][]*ssa.Function
@@ -105,7 +113,7 @@ type nilViolation struct {
 }
 
 func newNilAnalyzer(p *core.Prog, cs *crashScope) *nilAnalyzer {
-	a := &nilAnalyzer{p: p, cs: cs, model: map[*types.Named]bool{}, reqs: map[*ssa.Function][]nilReq{}, na: core.NewNilAnalysis(p), nilImpl: map[*ssa.Function]int{}, niDone: map[*ssa.Function]bool{}, viol: map[string]nilViolation{}, keyCache: map[ssa.Value]keyInfo{}, provedKeys: map[string]string{}, edgeCache: map[*ssa.Function]map[ssa.CallInstruction][]*ssa.Function{}}
+	a := &nilAnalyzer{p: p, cs: cs, model: map[*types.Named]bool{}, reqs: map[*ssa.Function][]nilReq{}, na: core.NewNilAnalysis(p), nilImpl: map[*ssa.Function]int{}, niDone: map[*ssa.Function]bool{}, viol: map[string]nilViolation{}, keyCache: map[ssa.Value]keyInfo{}, provedKeys: map[string]string{}, nowe: map[string]bool{}, nnMap: map[*ssa.Function]bool{}, nnType: map[*types.Named]bool{}, rejEmpty: map[string]bool{}, okImpl: map[*ssa.Function][]string{}, edgeCache: map[*ssa.Function]map[ssa.CallInstruction][]*ssa.Function{}}
 	for _, n := range p.ModelTypes("openapi3", "T") {
 		a.model[n] = true
 	}
@@ -116,6 +124,17 @@ func newNilAnalyzer(p *core.Prog, cs *crashScope) *nilAnalyzer {
 		"T.Info":              "T.Validate rejects a document without info",
 	}
 	return a
+}
+
+func (a *nilAnalyzer) isWrapperPtr(t types.Type) bool {
+	n := core.NamedOf(t)
+	if n == nil {
+		return false
+	}
+	if _, ok := core.IsRefWrapper(n.Origin()); ok {
+		return true
+	}
+	return n.Obj().Name() == "PathItem"
 }
 
 func (a *nilAnalyzer) isModel(t types.Type) (*types.Named, bool) {
@@ -204,7 +223,7 @@ func (a *nilAnalyzer) accessKey0(v ssa.Value, depth int) (string, lastStep) {
 			// element of a slice/array: treated as a range element (entries are non-nil, see axioms)
 			base, _ := a.accessKey(ad.X, depth+1)
 			_, isM := a.isModel(x.Type())
-			return base + "[i]@" + x.Name(), lastStep{kind: "range", desc: "slice element", model: isM}
+			return base + "[i]@" + x.Name(), lastStep{kind: "range", desc: "slice element", model: isM, wrapper: a.isWrapperPtr(x.Type()), coll: ad.X.Type()}
 		case *ssa.Global:
 			return "g:" + ad.Name(), lastStep{kind: "other", desc: "global " + ad.Name()}
 		default:
@@ -234,7 +253,13 @@ func (a *nilAnalyzer) accessKey0(v ssa.Value, depth int) (string, lastStep) {
 			return base + "[" + k + "],ok", lastStep{kind: "other"}
 		}
 		if a.keyFromSameMap(x) {
-			return base + "[" + k + "]", lastStep{kind: "range", desc: "lookup with a key taken from the same map"}
+			if c, ok := x.X.(*ssa.Call); ok {
+				if sc := c.Common().StaticCallee(); sc != nil && a.nonNilEntriesMap(sc) {
+					return base + "[" + k + "]", lastStep{kind: "alloc", desc: "entry of a map that " + shortFn(sc) + " fills with non-nil values only"}
+				}
+			}
+			_, isM := a.isModel(x.Type())
+			return base + "[" + k + "]", lastStep{kind: "range", desc: "lookup with a key taken from the same map", model: isM, wrapper: a.isWrapperPtr(x.Type()), coll: x.X.Type()}
 		}
 		return base + "[" + k + "]", lastStep{kind: "lookup", desc: "map lookup"}
 	case *ssa.Extract:
@@ -250,12 +275,31 @@ func (a *nilAnalyzer) accessKey0(v ssa.Value, depth int) (string, lastStep) {
 			}
 		case *ssa.Next:
 			_, isM := a.isModel(x.Type())
-			return fmt.Sprintf("rng:%p/%d", t, x.Index), lastStep{kind: "range", desc: "range element", model: isM}
+			var coll types.Type
+			if rg, ok := t.Iter.(*ssa.Range); ok {
+				coll = rg.X.Type()
+			}
+			return fmt.Sprintf("rng:%p/%d", t, x.Index), lastStep{kind: "range", desc: "range element", model: isM, wrapper: a.isWrapperPtr(x.Type()), coll: coll}
 		case *ssa.Call:
 			return fmt.Sprintf("call:%p/%d", t, x.Index), a.callStep(t, x.Index)
 		}
 		return fmt.Sprintf("v:%p", v), lastStep{kind: "other"}
 	case *ssa.Call:
+		// a repo function whose result is nil only when one of its parameters is: the result stands
+		// for that argument (WithValidationOptions(ctx, ...) returns ctx or a context derived from it)
+		if sc := x.Common().StaticCallee(); sc != nil && core.SSAFuncInRepo(sc) {
+			if o, ok := sc.Object().(*types.Func); ok && o != nil {
+				if never, pidx := a.naResult(o, 0); !never && pidx >= 0 {
+					args := x.Common().Args
+					if sc.Signature.Recv() != nil {
+						pidx++
+					}
+					if pidx < len(args) {
+						return a.accessKey(args[pidx], depth+1)
+					}
+				}
+			}
+		}
 		return fmt.Sprintf("call:%p/0", x), a.callStep(x, 0)
 	case *ssa.TypeAssert:
 		if !x.CommaOk {
@@ -269,11 +313,291 @@ func (a *nilAnalyzer) accessKey0(v ssa.Value, depth int) (string, lastStep) {
 }
 
 // keyFromSameMap: the lookup key is an element of a slice filled only with range keys of the same map
-// (the "collect keys, sort, iterate" idiom): the entry exists.
+// (the "collect keys, sort, iterate" idiom, or componentNames(m)): the entry exists.
 func (a *nilAnalyzer) keyFromSameMap(lk *ssa.Lookup) bool {
 	mapKey, _ := a.accessKey(lk.X, 1)
+	return a.indexFromKeysOf(lk.Index, func(m ssa.Value) bool {
+		k, _ := a.accessKey(m, 1)
+		return k == mapKey
+	})
+}
+
+// accessorFromSameMap: `recv.Value(k)` on a map-like where k is a key of `recv.Map()`.
+func (a *nilAnalyzer) accessorFromSameMap(c *ssa.Call) bool {
+	sc := c.Common().StaticCallee()
+	if sc == nil || sc.Name() != "Value" || len(c.Common().Args) != 2 {
+		return false
+	}
+	recvKey, _ := a.accessKey(c.Common().Args[0], 1)
+	return a.indexFromKeysOf(c.Common().Args[1], func(m ssa.Value) bool {
+		mc, ok := m.(*ssa.Call)
+		if !ok {
+			return false
+		}
+		msc := mc.Common().StaticCallee()
+		if msc == nil || msc.Name() != "Map" || len(mc.Common().Args) != 1 {
+			return false
+		}
+		k, _ := a.accessKey(mc.Common().Args[0], 1)
+		return k == recvKey
+	})
+}
+
+// rejectsEmpty: the loader's resolver for wrapper type `owner` starts by returning an error when the
+// wrapper is empty (`if component.isEmpty() { return errMUST... }`), with isEmpty being
+// `x == nil || x.Ref == "" && x.Value == nil`: in a loaded document such a wrapper has a reference
+// or a value.
+func (a *nilAnalyzer) rejectsEmpty(owner string) bool {
+	if v, ok := a.rejEmpty[owner]; ok {
+		return v
+	}
+	a.rejEmpty[owner] = false
+	p := a.p
+	info := p.Pkg("openapi3").TypesInfo
+	loaderT := p.NamedType("openapi3", "Loader")
+	for i := 0; i < loaderT.NumMethods(); i++ {
+		m := loaderT.Method(i)
+		sig := m.Type().(*types.Signature)
+		if !strings.HasPrefix(m.Name(), "resolve") || sig.Params().Len() < 3 {
+			continue
+		}
+		n := core.NamedOf(sig.Params().At(1).Type())
+		if n == nil || n.Obj().Name() != owner {
+			continue
+		}
+		fd := p.Decl(m)
+		if fd == nil || len(fd.Body.List) == 0 {
+			continue
+		}
+		ifs, ok := fd.Body.List[0].(*ast.IfStmt)
+		if !ok || ifs.Init != nil || !core.Terminates(info, ifs.Body.List) {
+			continue
+		}
+		call, ok := ast.Unparen(ifs.Cond).(*ast.CallExpr)
+		if !ok {
+			continue
+		}
+		callee := core.CalleeOf(info, call)
+		sel, ok := call.Fun.(*ast.SelectorExpr)
+		if callee == nil || !ok || callee.Name() != "isEmpty" {
+			continue
+		}
+		if id, ok := sel.X.(*ast.Ident); !ok || info.ObjectOf(id) != sig.Params().At(1) {
+			continue
+		}
+		// the returned error is non-nil
+		ret, ok := ifs.Body.List[len(ifs.Body.List)-1].(*ast.ReturnStmt)
+		if !ok || len(ret.Results) != 1 {
+			continue
+		}
+		ff := core.NewFuncFacts(p, info, fd)
+		if a.na.Classify(ff, ret.Results[0], ret) != core.NonNil {
+			continue
+		}
+		ed := p.Decl(callee)
+		if ed == nil || len(ed.Body.List) != 1 {
+			continue
+		}
+		r0, ok := ed.Body.List[0].(*ast.ReturnStmt)
+		if !ok || len(r0.Results) != 1 || ed.Recv == nil || len(ed.Recv.List[0].Names) != 1 {
+			continue
+		}
+		rn := ed.Recv.List[0].Names[0].Name
+		want := rn + " == nil || " + rn + `.Ref == "" && ` + rn + ".Value == nil"
+		if core.ExprStr(r0.Results[0]) == want {
+			a.rejEmpty[owner] = true
+		}
+	}
+	return a.rejEmpty[owner]
+}
+
+// nonNilEntryType: a named map type of the model whose UnmarshalJSON assigns the receiver only from
+// a helper that stores non-nil values (unmarshalStringMapP: every entry is &result of deepCast, so a
+// JSON null entry decodes to a pointer to the zero value, never to nil).
+func (a *nilAnalyzer) nonNilEntryType(t types.Type) bool {
+	if t == nil {
+		return false
+	}
+	n, ok := types.Unalias(t).(*types.Named)
+	if !ok {
+		return false
+	}
+	if v, ok := a.nnType[n]; ok {
+		return v
+	}
+	a.nnType[n] = false
+	if _, isMap := n.Underlying().(*types.Map); !isMap || n.Obj().Pkg() == nil || !core.InRepo(n.Obj().Pkg()) {
+		return false
+	}
+	a.p.BuildSSA()
+	prog := a.p.SSA
+	sel := prog.MethodSets.MethodSet(types.NewPointer(n)).Lookup(n.Obj().Pkg(), "UnmarshalJSON")
+	if sel == nil {
+		return false
+	}
+	fn := prog.MethodValue(sel)
+	if fn == nil || len(fn.Blocks) == 0 {
+		return false
+	}
+	stores := 0
+	for _, b := range fn.Blocks {
+		for _, in := range b.Instrs {
+			st, ok := in.(*ssa.Store)
+			if !ok || st.Addr != ssa.Value(fn.Params[0]) {
+				continue
+			}
+			v := st.Val
+			if ct, ok := v.(*ssa.ChangeType); ok {
+				v = ct.X
+			}
+			ex, ok := v.(*ssa.Extract)
+			if !ok {
+				return false
+			}
+			call, ok := ex.Tuple.(*ssa.Call)
+			if !ok {
+				return false
+			}
+			g := call.Common().StaticCallee()
+			if g == nil || !a.nonNilEntriesResult(g, ex.Index) {
+				return false
+			}
+			stores++
+		}
+	}
+	a.nnType[n] = stores > 0
+	return stores > 0
+}
+
+// nonNilEntriesResult: result idx of g is nil or one freshly made map into which only non-nil
+// values are stored (under a `v != nil` test, or v being the result of a call that returns nil only
+// with an error, stored on the no-error edge).
+func (a *nilAnalyzer) nonNilEntriesResult(g *ssa.Function, idx int) bool {
+	if !core.SSAFuncInRepo(g) || len(g.Blocks) == 0 {
+		return false
+	}
+	var mk *ssa.MakeMap
+	for _, b := range g.Blocks {
+		for _, in := range b.Instrs {
+			ret, ok := in.(*ssa.Return)
+			if !ok {
+				continue
+			}
+			if len(ret.Results) <= idx {
+				return false
+			}
+			r := ret.Results[idx]
+			if c, ok := r.(*ssa.Const); ok && c.IsNil() {
+				continue
+			}
+			m, ok := r.(*ssa.MakeMap)
+			if !ok || (mk != nil && mk != m) {
+				return false
+			}
+			mk = m
+		}
+	}
+	if mk == nil {
+		return false
+	}
+	n := 0
+	for _, ref := range *mk.Referrers() {
+		switch r := ref.(type) {
+		case *ssa.Return, *ssa.DebugRef:
+		case *ssa.MapUpdate:
+			if r.Map != mk {
+				return false
+			}
+			if !nonNilEdgeDominates(r.Value, r.Block()) && !a.okResultOnNoErrorEdge(r.Value, r.Block()) {
+				return false
+			}
+			n++
+		default:
+			return false
+		}
+	}
+	return n > 0
+}
+
+// okResultOnNoErrorEdge: v is result j of a call whose result j is nil only together with its error
+// result, and blk is dominated by the edge on which that error is nil.
+func (a *nilAnalyzer) okResultOnNoErrorEdge(v ssa.Value, blk *ssa.BasicBlock) bool {
+	ex, ok := v.(*ssa.Extract)
+	if !ok {
+		return false
+	}
+	call, ok := ex.Tuple.(*ssa.Call)
+	if !ok {
+		return false
+	}
+	sc := call.Common().StaticCallee()
+	if sc == nil {
+		return false
+	}
+	for _, ref := range *call.Referrers() {
+		e2, ok := ref.(*ssa.Extract)
+		if !ok || e2.Index == ex.Index || !isErrorType(e2.Type()) {
+			continue
+		}
+		if a.nilOnlyWithError(sc, ex.Index, e2.Index) && core.NilEdgeDominates(e2, blk) {
+			return true
+		}
+	}
+	return false
+}
+
+// nonNilEntriesMap: fn returns one freshly made map, and every value it stores into it is stored
+// under a dominating `v != nil` test.
+func (a *nilAnalyzer) nonNilEntriesMap(fn *ssa.Function) bool {
+	if v, ok := a.nnMap[fn]; ok {
+		return v
+	}
+	a.nnMap[fn] = false
+	if !core.SSAFuncInRepo(fn) || len(fn.Blocks) == 0 {
+		return false
+	}
+	var mk *ssa.MakeMap
+	for _, b := range fn.Blocks {
+		for _, in := range b.Instrs {
+			ret, ok := in.(*ssa.Return)
+			if !ok {
+				continue
+			}
+			if len(ret.Results) != 1 {
+				return false
+			}
+			m, ok := ret.Results[0].(*ssa.MakeMap)
+			if !ok || (mk != nil && mk != m) {
+				return false
+			}
+			mk = m
+		}
+	}
+	if mk == nil {
+		return false
+	}
+	n := 0
+	for _, ref := range *mk.Referrers() {
+		switch r := ref.(type) {
+		case *ssa.Return, *ssa.DebugRef:
+		case *ssa.MapUpdate:
+			if r.Map != mk || !nonNilEdgeDominates(r.Value, r.Block()) {
+				return false
+			}
+			n++
+		default:
+			return false
+		}
+	}
+	a.nnMap[fn] = n > 0
+	return n > 0
+}
+
+// indexFromKeysOf: idx is an element of a slice whose elements are all range keys of a map accepted
+// by sameMap (directly ranging over the map also counts), or of componentNames(m) for such a map.
+func (a *nilAnalyzer) indexFromKeysOf(idx ssa.Value, sameMap func(m ssa.Value) bool) bool {
 	var slice ssa.Value
-	switch ix := lk.Index.(type) {
+	switch ix := idx.(type) {
 	case *ssa.UnOp:
 		if ia, ok := ix.X.(*ssa.IndexAddr); ok && ix.Op == token.MUL {
 			slice = ia.X
@@ -282,9 +606,7 @@ func (a *nilAnalyzer) keyFromSameMap(lk *ssa.Lookup) bool {
 		if nx, ok := ix.Tuple.(*ssa.Next); ok {
 			if rg, ok := nx.Iter.(*ssa.Range); ok {
 				if ix.Index == 1 {
-					// ranging over the same map directly
-					k, _ := a.accessKey(rg.X, 1)
-					return k == mapKey
+					return sameMap(rg.X)
 				}
 				slice = rg.X
 			}
@@ -312,13 +634,33 @@ func (a *nilAnalyzer) keyFromSameMap(lk *ssa.Lookup) bool {
 		case *ssa.MakeSlice:
 		case *ssa.Const:
 		case *ssa.Call:
+			if sc := x.Common().StaticCallee(); sc != nil {
+				// componentNames(m): the sorted keys of m
+				name := sc.Name()
+				if i := strings.Index(name, "["); i >= 0 {
+					name = name[:i]
+				}
+				if name == "componentNames" && len(x.Common().Args) == 1 {
+					arg := x.Common().Args[0]
+					if ct, isCT := arg.(*ssa.ChangeType); isCT {
+						arg = ct.X
+					}
+					if sameMap(arg) {
+						found = true
+					} else {
+						ok = false
+					}
+					return
+				}
+				ok = false
+				return
+			}
 			b, isB := x.Common().Value.(*ssa.Builtin)
 			if !isB || b.Name() != "append" || len(x.Common().Args) != 2 {
 				ok = false
 				return
 			}
 			walk(x.Common().Args[0], depth+1)
-			// appended elements
 			sl, isS := x.Common().Args[1].(*ssa.Slice)
 			if !isS {
 				ok = false
@@ -350,11 +692,7 @@ func (a *nilAnalyzer) keyFromSameMap(lk *ssa.Lookup) bool {
 						return
 					}
 					rg, isR := nx.Iter.(*ssa.Range)
-					if !isR {
-						ok = false
-						return
-					}
-					if k, _ := a.accessKey(rg.X, 1); k != mapKey {
+					if !isR || !sameMap(rg.X) {
 						ok = false
 						return
 					}
@@ -370,11 +708,20 @@ func (a *nilAnalyzer) keyFromSameMap(lk *ssa.Lookup) bool {
 }
 
 func (a *nilAnalyzer) callStep(c *ssa.Call, idx int) lastStep {
+	if idx == 0 && a.accessorFromSameMap(c) {
+		_, isM := a.isModel(c.Type())
+		return lastStep{kind: "range", desc: "map-like entry for a key taken from the same map-like", model: isM, wrapper: a.isWrapperPtr(c.Type())}
+	}
 	sc := c.Common().StaticCallee()
 	if sc == nil {
 		return lastStep{kind: "other", desc: "dynamic call result"}
 	}
 	if !core.SSAFuncInRepo(sc) {
+		if o, ok := sc.Object().(*types.Func); ok && o != nil {
+			if never, _ := a.naResult(o, idx); never {
+				return lastStep{kind: "alloc", desc: "never-nil result of " + sc.Name()}
+			}
+		}
 		return lastStep{kind: "other", desc: "library call result"}
 	}
 	if o, ok := sc.Object().(*types.Func); ok && o != nil {
@@ -417,6 +764,9 @@ func (a *nilAnalyzer) optional(ls lastStep, ty types.Type) (bool, string) {
 		if a.raw {
 			return true, "document field " + ls.desc + " (nil when absent from the input)"
 		}
+		if a.loaded {
+			return true, "document field " + ls.desc + " (nil when absent from the input)"
+		}
 		if ls.field == "Value" {
 			return false, "" // reference wrappers are resolved in a loaded, validated document
 		}
@@ -425,8 +775,14 @@ func (a *nilAnalyzer) optional(ls lastStep, ty types.Type) (bool, string) {
 		}
 		return true, "optional document field " + ls.desc
 	case "range":
+		if (a.raw || a.loaded) && ls.model && a.nonNilEntryType(ls.coll) {
+			return false, "" // the collection's decoder stores only non-nil entries
+		}
 		if a.raw && ls.model {
 			return true, "entry of a document collection (JSON null yields a nil entry)"
+		}
+		if a.loaded && ls.model && !ls.wrapper {
+			return true, "entry of a document collection that the loader does not check (JSON null yields a nil entry)"
 		}
 	case "lookup":
 		return true, "map lookup (nil when the key is absent)"
@@ -553,43 +909,23 @@ func (a *nilAnalyzer) nilImplies(fn *ssa.Function) int {
 	return a.nilImpl[fn]
 }
 
-// nilOnlyWithError: in every return of fn, result j is non-nil or result errIdx (an error) is non-nil.
-func (a *nilAnalyzer) nilOnlyWithError(fn *ssa.Function, j, errIdx int) bool {
-	if fn.Blocks == nil {
+// nilOnlyWithError: in every return of fn, result j is provably non-nil or result errIdx (an error)
+// is provably non-nil (decided on the syntax by core.NilAnalysis).
+func (a *nilAnalyzer) nilOnlyWithError(fn *ssa.Function, j, errIdx int) (res bool) {
+	top := fn
+	if top.Origin() != nil {
+		top = top.Origin()
+	}
+	o, ok := top.Object().(*types.Func)
+	if !ok || o == nil {
 		return false
 	}
-	n := 0
-	for _, b := range fn.Blocks {
-		ret, ok := b.Instrs[len(b.Instrs)-1].(*ssa.Return)
-		if !ok {
-			continue
+	defer func() {
+		if recover() != nil {
+			res = false
 		}
-		n++
-		if j >= len(ret.Results) || errIdx >= len(ret.Results) {
-			return false
-		}
-		nonNil := func(v ssa.Value) bool {
-			switch x := v.(type) {
-			case *ssa.Alloc, *ssa.MakeInterface, *ssa.MakeMap, *ssa.MakeSlice, *ssa.MakeClosure:
-				if mi, ok := x.(*ssa.MakeInterface); ok {
-					if c, ok := mi.X.(*ssa.Const); ok && c.IsNil() {
-						return false
-					}
-				}
-				return true
-			case *ssa.Call:
-				if sc := x.Common().StaticCallee(); sc != nil && sc.Pkg != nil {
-					s := sc.String()
-					return s == "fmt.Errorf" || s == "errors.New"
-				}
-			}
-			return false
-		}
-		if !nonNil(ret.Results[j]) && !nonNil(ret.Results[errIdx]) {
-			return false
-		}
-	}
-	return n > 0
+	}()
+	return a.na.NilOnlyWithError(o, j, errIdx)
 }
 
 // condFacts: facts implied by a branch condition being true (sense=true) or false.
@@ -602,6 +938,17 @@ func (a *nilAnalyzer) condFacts(c ssa.Value, sense bool, out map[string]nilFact)
 	case *ssa.BinOp:
 		if x.Op != token.EQL && x.Op != token.NEQ {
 			return
+		}
+		// loaded document: a wrapper whose resolver rejects empty wrappers has a value when it has
+		// no reference (`if x.Ref != "" {...}; use x.Value`)
+		if a.loaded {
+			if cc, ok := x.Y.(*ssa.Const); ok && cc.Value != nil && cc.Value.Kind() == constant.String && constant.StringVal(cc.Value) == "" {
+				k, ls := a.accessKey(x.X, 0)
+				if ls.kind == "field" && ls.field == "Ref" && strings.HasSuffix(k, ".Ref") && a.rejectsEmpty(ls.owner) && (x.Op == token.EQL) == sense {
+					out[strings.TrimSuffix(k, ".Ref")+".Value"] = factNonNil
+				}
+				return
+			}
 		}
 		var v ssa.Value
 		if cc, ok := x.Y.(*ssa.Const); ok && cc.IsNil() {
@@ -617,6 +964,17 @@ func (a *nilAnalyzer) condFacts(c ssa.Value, sense bool, out map[string]nilFact)
 			out[k] = factNil
 		} else {
 			out[k] = factNonNil
+		}
+		// `err := x.Validate(...); err == nil`: what the callee established about x on its nil-error returns
+		if call, ok := v.(*ssa.Call); ok && isNil {
+			if sc := call.Common().StaticCallee(); sc != nil && len(call.Common().Args) > 0 {
+				if rels := a.okImpl[sc]; len(rels) > 0 {
+					base, _ := a.accessKey(call.Common().Args[0], 0)
+					for _, rel := range rels {
+						out[base+rel] = factNonNil
+					}
+				}
+			}
 		}
 		// `v, err := f(); err == nil`: the other results of a function that returns nil only
 		// together with an error are non-nil
@@ -677,6 +1035,7 @@ type fnNil struct {
 	reqs     []nilReq
 	interest map[string]bool          // keys facts are kept for
 	widened  map[*ssa.BasicBlock]bool // blocks collapsed to a single (intersection) state
+	okImpl   map[string]bool          // see returnSummary (nil: no return seen that may yield a nil error)
 }
 
 // collectInterest: keys that are tested by some branch, or whose dereference needs a proof.
@@ -871,6 +1230,47 @@ func (a *nilAnalyzer) analyze(fn *ssa.Function) {
 		}
 	}
 	a.reqs[fn] = fa.reqs
+	if len(fa.okImpl) > 0 {
+		var ks []string
+		for k := range fa.okImpl {
+			ks = append(ks, k)
+		}
+		sort.Strings(ks)
+		a.okImpl[fn] = ks
+	} else {
+		delete(a.okImpl, fn)
+	}
+}
+
+// returnSummary: for a function whose only result is an error, the access paths below parameter 0
+// that are non-nil in every state in which the returned error may be nil ("Validate returned nil,
+// so x.Value is there").
+func (fa *fnNil) returnSummary(ret *ssa.Return, cur []nilState) {
+	a := fa.a
+	if len(ret.Results) != 1 || !isErrorType(ret.Results[0].Type()) || len(fa.fn.Params) == 0 || fa.fn.Parent() != nil {
+		return
+	}
+	rk, rls := a.accessKey(ret.Results[0], 0)
+	for _, s := range cur {
+		if rk != "nil" && (s[rk] == factNonNil || rls.kind == "alloc") {
+			continue
+		}
+		got := map[string]bool{}
+		for k, f := range s {
+			if f == factNonNil && strings.HasPrefix(k, "p:0.") && !relHasLocal(k) {
+				got[strings.TrimPrefix(k, "p:0")] = true
+			}
+		}
+		if fa.okImpl == nil {
+			fa.okImpl = got
+			continue
+		}
+		for k := range fa.okImpl {
+			if !got[k] {
+				delete(fa.okImpl, k)
+			}
+		}
+	}
 }
 
 func (fa *fnNil) mergeAll(ss stateSetN, extra nilState) nilState {
@@ -986,6 +1386,32 @@ func (fa *fnNil) flowBlock(b *ssa.BasicBlock, report bool) [][]nilState {
 				}
 			}
 		case *ssa.Store:
+			if fa2, ok := x.Addr.(*ssa.FieldAddr); ok {
+				// p.f = v : the path p.f now has v's nil-ness
+				base, _ := a.accessKey(fa2.X, 0)
+				base = strings.ReplaceAll(base, ".&", ".")
+				_, fname := fieldNames(fa2.X.Type(), fa2.Field)
+				key := base + "." + fname
+				if fa.interest[key] {
+					vk, vls := a.accessKey(x.Val, 0)
+					for i := range cur {
+						n := cur[i].clone()
+						for k := range n {
+							if k == key || strings.HasPrefix(k, key+".") || strings.HasPrefix(k, key+"[") {
+								delete(n, k)
+							}
+						}
+						if vk == "nil" {
+							n[key] = factNil
+						} else if f, ok := n[vk]; ok {
+							n[key] = f
+						} else if vls.kind == "alloc" {
+							n[key] = factNonNil
+						}
+						cur[i] = n
+					}
+				}
+			}
 			if al, ok := x.Addr.(*ssa.Alloc); ok {
 				key := fmt.Sprintf("*%s@%p", al.Name(), al)
 				vk, vls := a.accessKey(x.Val, 0)
@@ -1005,6 +1431,10 @@ func (fa *fnNil) flowBlock(b *ssa.BasicBlock, report bool) [][]nilState {
 					}
 					cur[i] = n
 				}
+			}
+		case *ssa.Return:
+			if report {
+				fa.returnSummary(x, cur)
 			}
 		case ssa.CallInstruction:
 			c := x.Common()
@@ -1215,7 +1645,10 @@ func (fa *fnNil) checkKey(k string, ls lastStep, in ssa.Instruction, what string
 				dup = true
 			}
 		}
-		if !dup && strings.Count(rel, ".")+strings.Count(rel, "[") <= 4 && len(fa.reqs) < 400 {
+		// a requirement the callers cannot express (too deep, or through a value local to this
+		// function) is decided here: not proven
+		expressible := relDepth(rel) <= 4 && len(fa.reqs) < 400 && !relHasLocal(rel)
+		if !dup && expressible {
 			rq := nilReq{idx: idx, rel: rel, last: ls, site: in.Pos(), fn: fa.fn, via: what}
 			if opt {
 				rq.oKey, rq.oPos, rq.oDetail = oKey, oPos, oDetail
@@ -1223,7 +1656,7 @@ func (fa *fnNil) checkKey(k string, ls lastStep, in ssa.Instruction, what string
 			fa.reqs = append(fa.reqs, rq)
 		}
 		// the callers decide, unless nobody in scope calls this function
-		if !a.isEntry(fa.fn) {
+		if !a.isEntry(fa.fn) && (dup || expressible) {
 			return
 		}
 		if !opt {
@@ -1266,6 +1699,40 @@ func (a *nilAnalyzer) isEntry(fn *ssa.Function) bool {
 		}
 	}
 	return fn.Parent() == nil
+}
+
+// relDepth counts the steps of a relative access path (bracketed keys count as one step).
+func relDepth(rel string) int {
+	n, depth := 0, 0
+	for i := 0; i < len(rel); i++ {
+		switch rel[i] {
+		case '[':
+			if depth == 0 {
+				n++
+			}
+			depth++
+		case ']':
+			if depth > 0 {
+				depth--
+			}
+		case '.':
+			if depth == 0 {
+				n++
+			}
+		}
+	}
+	return n
+}
+
+// relHasLocal: the path goes through a key that names a value local to the function (a call
+// result, a range variable, a phi): meaningless to callers.
+func relHasLocal(rel string) bool {
+	for _, m := range []string{"call:", "rng:", "phi:", "ta:", "v:", "@t", "0x"} {
+		if strings.Contains(rel, m) {
+			return true
+		}
+	}
+	return false
 }
 
 func splitRoot(k string) (string, string) {
@@ -1391,17 +1858,22 @@ func crashNil(r *core.Report, cs *crashScope) {
 }
 
 func crashNilMode(r *core.Report, cs *crashScope, raw bool, floor int) {
+	crashNilPhase(r, cs, raw, false, floor, "")
+}
+
+func crashNilPhase(r *core.Report, cs *crashScope, raw, loaded bool, floor int, suffix string) {
 	p := r.Prog
-	r.RunRule(cs.id+".nil", "optional-pointer dereferences: every dereference (field access, *p, method call on an interface, call of a function value) of a pointer obtained from an optional field of the document model, from a map lookup, from a comma-ok assertion or from a repo function that may return nil is preceded, on every path, by a nil test of the same access path — decided by a path-sensitive nil-ness dataflow on go/ssa with disjunctive states; a function that dereferences a parameter (or a field path below it) without a test passes the obligation to its callers (requirement summaries, fixpoint over the call graph); validated-document axioms: reference wrappers are resolved, Operation.Responses/T.Paths/T.Info are present, a schema whose type includes array has items, slice and range elements are non-nil (for C20 none of these axioms is used: nothing has been validated)", floor, func() {
+	r.RunRule(cs.id+".nil"+suffix, "optional-pointer dereferences: every dereference (field access, *p, method call on an interface, call of a function value) of a pointer obtained from an optional field of the document model, from a map lookup, from a comma-ok assertion or from a repo function that may return nil is preceded, on every path, by a nil test of the same access path — decided by a path-sensitive nil-ness dataflow on go/ssa with disjunctive states; a function that dereferences a parameter (or a field path below it) without a test passes the obligation to its callers (requirement summaries, fixpoint over the call graph); validated-document axioms: reference wrappers are resolved, Operation.Responses/T.Paths/T.Info are present, a schema whose type includes array has items, slice and range elements are non-nil (for C20 none of these axioms is used: nothing has been validated)", floor, func() {
 		a := newNilAnalyzer(p, cs)
 		a.raw = raw
+		a.loaded = loaded
 		maxRounds := 8
 		if v := os.Getenv("KINLINT_NILROUNDS"); v != "" {
 			fmt.Sscanf(v, "%d", &maxRounds)
 		}
 		for round := 0; round < maxRounds; round++ {
 			a.round = round
-			before := reqSignature(a.reqs)
+			before := reqSignature(a.reqs) + okImplSignature(a.okImpl)
 			a.viol = map[string]nilViolation{}
 			a.provedKeys = map[string]string{}
 			a.derefs, a.proved = 0, 0
@@ -1412,7 +1884,7 @@ func crashNilMode(r *core.Report, cs *crashScope, raw bool, floor int) {
 					fmt.Println("SLOW", shortFn(fn), d, len(fn.Blocks))
 				}
 			}
-			if reqSignature(a.reqs) == before {
+			if reqSignature(a.reqs)+okImplSignature(a.okImpl) == before {
 				break
 			}
 		}
@@ -1438,6 +1910,9 @@ func crashNilMode(r *core.Report, cs *crashScope, raw bool, floor int) {
 		r.Extra[cs.id+"_optional_derefs"] = a.derefs
 		r.Extra[cs.id+"_optional_derefs_proved"] = a.proved
 		if os.Getenv("KINLINT_DEBUG") != "" {
+			for fn, ks := range a.okImpl {
+				fmt.Println("OKIMPL", shortFn(fn), ks)
+			}
 			for fn, rq := range a.reqs {
 				for _, q := range rq {
 					fmt.Println("REQ", shortFn(fn), q.idx, q.rel, q.last.kind)
@@ -1445,6 +1920,15 @@ func crashNilMode(r *core.Report, cs *crashScope, raw bool, floor int) {
 			}
 		}
 	})
+}
+
+func okImplSignature(m map[*ssa.Function][]string) string {
+	var parts []string
+	for fn, ks := range m {
+		parts = append(parts, fn.String()+"="+strings.Join(ks, ","))
+	}
+	sort.Strings(parts)
+	return "#" + strings.Join(parts, "|")
 }
 
 func reqSignature(m map[*ssa.Function][]nilReq) string {
